@@ -420,11 +420,11 @@ func (e *env) endEvent(x int, res *nfsv4.Compound4res) common.Ev {
 	return common.Ev{"ev": "end", "x": x, "sts": sts, "rops": rops, "rh": replyHash(res), "status": statusName(res.Status)}
 }
 
-func (e *env) panicEvent(x int, ops []*Op, msg string) {
+func (e *env) panicEvent(x int, ops []*Op, msg string, fresh bool) {
 	if i := strings.IndexByte(msg, '\n'); i >= 0 && common.Env("VERIF_DEBUG", "") == "" {
 		msg = msg[:i]
 	}
-	e.tr.Emit(common.Ev{"ev": "panic", "x": x, "ops": shapeOf(ops), "msg": msg})
+	e.tr.Emit(common.Ev{"ev": "panic", "x": x, "ops": shapeOf(ops), "msg": msg, "fresh": fresh})
 }
 
 // runSeq executes one sequenced COMPOUND synchronously and logs it.
@@ -438,7 +438,7 @@ func (e *env) runSeq(sess [16]byte, slot, seq uint32, cache bool, ops []*Op, fre
 	res, pan := e.call(seqArgs(sess, slot, seq, cache, ops))
 	if pan != "" {
 		e.tr.Emit(e.seqEvent(x, sess, slot, seq, cache, ops, "PANIC"))
-		e.panicEvent(x, ops, pan)
+		e.panicEvent(x, ops, pan, fresh)
 		return nil
 	}
 	e.logSeqResult(x, sess, slot, seq, cache, ops, fresh, res, 0)
@@ -489,7 +489,7 @@ func (e *env) exchangeID(own string, ver int, csBase map[uint64]uint32) (r exidR
 	}}
 	res, pan := e.call(args)
 	if pan != "" {
-		e.tr.Emit(common.Ev{"ev": "panic", "x": 0, "ops": []string{"EXCHANGE_ID"}, "msg": pan})
+		e.tr.Emit(common.Ev{"ev": "panic", "x": 0, "ops": []string{"EXCHANGE_ID"}, "msg": pan, "fresh": true})
 		return r, true
 	}
 	ev := common.Ev{"ev": "exid", "own": own, "ver": ver, "st": statusName(res.Status), "cid": 0, "conf": false, "sq": 0}
@@ -528,7 +528,7 @@ func (e *env) createSession(cid uint64, known bool, seq, base uint32) (r crsesRe
 	}}
 	res, pan := e.call(args)
 	if pan != "" {
-		e.tr.Emit(common.Ev{"ev": "panic", "x": 0, "ops": []string{"CREATE_SESSION"}, "msg": pan})
+		e.tr.Emit(common.Ev{"ev": "panic", "x": 0, "ops": []string{"CREATE_SESSION"}, "msg": pan, "fresh": true})
 		return r, true
 	}
 	c := 0
@@ -557,7 +557,7 @@ func (e *env) destroySession(sess [16]byte, known bool) (ok, panicked bool) {
 	}}
 	res, pan := e.call(args)
 	if pan != "" {
-		e.tr.Emit(common.Ev{"ev": "panic", "x": 0, "ops": []string{"DESTROY_SESSION"}, "msg": pan})
+		e.tr.Emit(common.Ev{"ev": "panic", "x": 0, "ops": []string{"DESTROY_SESSION"}, "msg": pan, "fresh": true})
 		return false, true
 	}
 	s := 0
@@ -575,7 +575,7 @@ func (e *env) destroyClientID(cid uint64, known bool) (ok, panicked bool) {
 	}}
 	res, pan := e.call(args)
 	if pan != "" {
-		e.tr.Emit(common.Ev{"ev": "panic", "x": 0, "ops": []string{"DESTROY_CLIENTID"}, "msg": pan})
+		e.tr.Emit(common.Ev{"ev": "panic", "x": 0, "ops": []string{"DESTROY_CLIENTID"}, "msg": pan, "fresh": true})
 		return false, true
 	}
 	c := 0
@@ -597,7 +597,7 @@ func (e *env) trigger() bool {
 	}
 	res, pan := e.call(seqArgs(bogus, 0, 1, false, nil))
 	if pan != "" {
-		e.tr.Emit(common.Ev{"ev": "panic", "x": 0, "ops": []string{"SEQUENCE"}, "msg": pan})
+		e.tr.Emit(common.Ev{"ev": "panic", "x": 0, "ops": []string{"SEQUENCE"}, "msg": pan, "fresh": true})
 		return false
 	}
 	e.tr.Emit(common.Ev{"ev": "trigger", "st": statusName(res.Status)})
